@@ -559,29 +559,40 @@ func runRender(c J) J {
 	// "then": the files under the template's directory change (edited, removed, created) and the same source is
 	// parsed and rendered again on the same engine: what is included is what is there now
 	if then := jobj(c["then"]); then != nil && rs.root != "" {
-		for _, fx := range jarr(c, "files") {
-			if fa, _ := fx.([]any); len(fa) >= 2 {
-				os.Remove(filepath.Join(rs.root, bytesOf(fa[0])))
-			}
-		}
 		pr := newPrinter(spellFromJSON(c["spell"]))
 		ok := true
-		for _, fx := range jarr(then, "files") {
-			fa, _ := fx.([]any)
-			if len(fa) < 2 {
-				continue
+		if _, has := then["files"]; has {
+			for _, fx := range jarr(c, "files") {
+				if fa, _ := fx.([]any); len(fa) >= 2 {
+					os.Remove(filepath.Join(rs.root, bytesOf(fa[0])))
+				}
 			}
-			content, err := pr.fileSource(fa)
-			full := filepath.Join(rs.root, bytesOf(fa[0]))
-			if err != nil || os.MkdirAll(filepath.Dir(full), 0o755) != nil || os.WriteFile(full, []byte(content), 0o644) != nil {
-				ok = false
+			for _, fx := range jarr(then, "files") {
+				fa, _ := fx.([]any)
+				if len(fa) < 2 {
+					continue
+				}
+				content, err := pr.fileSource(fa)
+				full := filepath.Join(rs.root, bytesOf(fa[0]))
+				if err != nil || os.MkdirAll(filepath.Dir(full), 0o755) != nil || os.WriteFile(full, []byte(content), 0o644) != nil {
+					ok = false
+				}
 			}
+		}
+		// (or the same source is a template somewhere else: another path, the same engine)
+		if p2, has := then["path"]; has {
+			rs.path = filepath.Join(rs.root, bytesOf(p2))
 		}
 		if ok {
 			obs2 := cloneCase(c)
 			delete(obs2, "then")
 			obs2["id"] = then["id"]
-			obs2["files"] = then["files"]
+			if _, has := then["files"]; has {
+				obs2["files"] = then["files"]
+			}
+			if p2, has := then["path"]; has {
+				obs2["path"] = p2
+			}
 			obs2["src"] = bytesJSON(rs.src)
 			obs2["text"] = rs.src
 			res2 := doRender(rs, jstr(c, "entry"))
